@@ -454,8 +454,12 @@ func judge(c *Case, res *result) (v verdict) {
 	// a form operation whose consumes list starts with a media type that cannot carry form fields: the
 	// client is documented to use the first non-empty entry, and the text does not say which entry of an
 	// inconsistent list a client has to prefer
-	if len(c.ConsumesList) > 0 && find(c, "form") != nil && find(c, "file") == nil {
-		if bt := bareType(c.Consumes); bt != "application/x-www-form-urlencoded" && bt != "multipart/form-data" {
+	// (with a file parameter the body is multipart whatever the list says: only a list that starts with
+	// multipart/form-data describes that request)
+	if len(c.ConsumesList) > 0 && (find(c, "form") != nil || find(c, "file") != nil) {
+		bt := bareType(c.Consumes)
+		if (find(c, "file") == nil && bt != "application/x-www-form-urlencoded" && bt != "multipart/form-data") ||
+			(find(c, "file") != nil && bt != "multipart/form-data") {
 			v.outcome = "outside-guarantee"
 			v.nontrivial = false
 			v.may++
